@@ -95,10 +95,15 @@ type c04Buy struct {
 	forOther bool
 	short    bool // payer holds one base unit less than the price
 	dup      bool // an identical purchase by another payer (for itself) was made just before, in the same block
+	forCaps  bool // the recipient's address is spelled in capitals (the same account)
 }
 
 func (b c04Buy) String() string {
-	return fmt.Sprintf("bytes=%d|days=%d|ref=%s|forOther=%v|short=%v|dup=%v", b.bytes, b.days, b.referral, b.forOther, b.short, b.dup)
+	s := fmt.Sprintf("bytes=%d|days=%d|ref=%s|forOther=%v|short=%v|dup=%v", b.bytes, b.days, b.referral, b.forOther, b.short, b.dup)
+	if b.forCaps {
+		s += "|forCaps=true"
+	}
+	return s
 }
 
 func within1(a, b sdk.Int) bool { return a.Sub(b).Abs().LTE(sdk.OneInt()) }
@@ -187,7 +192,11 @@ func c04RunBuy(env world.Env, g c04Group, b c04Buy) (vs []mc.Viol, class string)
 	if b.referral == "self-caps" {
 		creator = strings.ToUpper(creator)
 	}
-	msg := storagetypes.NewMsgBuyStorage(creator, forAcc.Bech, b.days, b.bytes, "ujkl")
+	forStr := forAcc.Bech
+	if b.forCaps {
+		forStr = strings.ToUpper(forStr)
+	}
+	msg := storagetypes.NewMsgBuyStorage(creator, forStr, b.days, b.bytes, "ujkl")
 	msg.Referral = refStr
 	res := env.Deliver(msg)
 	ctx = env.Ctx()
@@ -410,6 +419,13 @@ func c04Enum(thorough bool) mc.Enum {
 						c.Subs = append(c.Subs, c04Buy{bytes: 3 * gbBytes, days: dd, referral: rf, dup: true}.String())
 					}
 				}
+				for _, by := range bytesSet {
+					for _, dd := range []int64{30, 400} {
+						for _, fo := range []bool{false, true} {
+							c.Subs = append(c.Subs, c04Buy{bytes: by, days: dd, referral: "none", forOther: fo, forCaps: true}.String())
+						}
+					}
+				}
 				if plan == "none" {
 					for _, total := range []int64{1, 1_000_000, 5_000_000_000} {
 						for _, exp := range []int64{14_399, 14_400, 5_256_000} {
@@ -441,6 +457,9 @@ func c04Enum(thorough bool) mc.Enum {
 						if len(f) > 5 {
 							fmt.Sscanf(f[5], "dup=%t", &b.dup)
 						}
+						if len(f) > 6 {
+							fmt.Sscanf(f[6], "forCaps=%t", &b.forCaps)
+						}
 						vs, class = c04RunBuy(env, g, b)
 					}
 					return mc.CaseResult{Viols: vs, Class: class, Nontrivial: strings.HasPrefix(class, "accepted")}
@@ -455,7 +474,7 @@ func c04Enum(thorough bool) mc.Enum {
 func init() {
 	CaseReplayers["C04/payments"] = func(r *mc.Run, c string) { r.ReplayCase(c04Enum(true), c) }
 	Props["C04"] = Prop{Level: "exploration", Run: func(r *mc.Run, tier string) {
-		r.Rules = append(r.Rules, "full product existing-plan state {none, active smaller, active larger, active with usage above the request, expired} x price feed {absent,0.24,1,0.001} x (POL,referral) ratios {(40,25),(0,0),(35,25),(60,40),(10,90),(30,25)} x bytes {0.5,1,3,5000,20000 GB} x days {1,29,30,365,366,400} x referral {none,self,other address,name of other,name of self,unregistered name,garbage} x recipient {self,other} x payer balance {ample, price-1}; pay-once posts size {1,1e6,5e9} x expiry {<1 day,1 day,1 year} x balance; every evaluation snapshots all balances and total supply. Non-trivial = accepted purchases")
+		r.Rules = append(r.Rules, "full product existing-plan state {none, active smaller, active larger, active with usage above the request, expired} x price feed {absent,0.24,1,0.001} x (POL,referral) ratios {(40,25),(0,0),(35,25),(60,40),(10,90),(30,25)} x bytes {0.5,1,3,5000,20000 GB} x days {1,29,30,365,366,400} x referral {none,self,other address,name of other,name of self,unregistered name,garbage} x recipient {self,other; also spelled in capitals} x payer balance {ample, price-1}; pay-once posts size {1,1e6,5e9} x expiry {<1 day,1 day,1 year} x balance; every evaluation snapshots all balances and total supply. Non-trivial = accepted purchases")
 		r.Assumptions = append(r.Assumptions, "the chain's own price functions evaluated on the pre-state are the reference for 'the price the chain computes'; the 10%/5% referral discount is applied by the harness", "ratio pairs with sum <= 100")
 		dl := time.Time{}
 		r.AddEnum(c04Enum(tier == "thorough"), workers(), dl)
